@@ -6,7 +6,7 @@ import importlib
 import z3
 from .core import (V, C, Lam, Dotted, Bound, Iter, Unsupported, SpecError, SpecCtx, QHyp, _Raise, FieldLoc, GlobLoc,
                    BoxLoc, UNBOUND, Extern, _and_decl, _or_decl, _not_decl)
-from .types import (Ty, INT, BOOL, STR, ATOM, BYTES, REAL, Ref, Enum, SetOf, SeqOf, Opt, MapOf, Rec, atom)
+from .types import (Ty, INT, BOOL, STR, ATOM, BYTES, REAL, Ref, Enum, SetOf, SeqOf, Opt, MapOf, Rec, ListOf, atom)
 
 
 def builtin(f):
@@ -268,7 +268,7 @@ class World:
     # ------------------------------------------------------------------ collections
     def iter_source(self, ex, src, line):
         if isinstance(src, C):
-            if isinstance(src.ty, (SetOf, SeqOf)):
+            if isinstance(src.ty, (SetOf, SeqOf, ListOf)):
                 return src
             if isinstance(src.ty, MapOf):
                 return self.map_keys(ex, src)
@@ -406,6 +406,9 @@ class World:
 
     def call_function(self, ex, path, args, kwargs, e):
         line = e.lineno
+        ov = getattr(ex.k, 'externs', None)
+        if ov and path in ov:
+            return self.call_extern(ex, ov[path], path, args, kwargs, e)
         if path in getattr(self, 'rec_classes', {}):
             return self.make_record(ex, self.rec_classes[path], args, kwargs, e)
         if path in self.contracts:
@@ -458,6 +461,8 @@ class World:
                 return self.set_method(ex, recv, name, args, kwargs, line)
             if isinstance(ty, SeqOf):
                 return self.seq_method(ex, recv, name, args, kwargs, line)
+            if isinstance(ty, ListOf):
+                return self.list_method(ex, recv, name, args, kwargs, line)
             if isinstance(ty, MapOf):
                 return self.map_method(ex, recv, name, args, kwargs, line)
         if isinstance(recv, V):
@@ -677,6 +682,56 @@ class World:
             return None
         raise Unsupported('sequence method %s (line %d)' % (name, line))
 
+    def list_method(self, ex, recv, name, args, kwargs, line):
+        ty = recv.ty
+        t = ex.read(recv)
+        E = ty.elem
+        n, arr = ty.len(t), ty.arr(t)
+        if name == 'append':
+            ex.write(recv, ty.mk(n + 1, z3.Store(arr, n, ex.to_z3(args[0], E))), line)
+            return None
+        if name == 'extend':
+            a = args[0]
+            if isinstance(a, (list, tuple)):
+                for x in a:
+                    arr = z3.Store(arr, n, ex.to_z3(x, E))
+                    n = n + 1
+                ex.write(recv, ty.mk(n, arr), line)
+                return None
+            if isinstance(a, C) and isinstance(a.ty, ListOf):
+                o = ex.read(a)
+                j = z3.Int(ex.path.fresh_name('ex_j'))
+                ex.write(recv, ty.mk(n + ty.len(o), z3.Lambda([j], z3.If(j < n, arr[j], ty.arr(o)[j - n]))), line)
+                return None
+            raise Unsupported('list.extend with %r' % (a,))
+        if name == '__getitem__':
+            k = ex._num(args[0])
+            k = z3.If(k < 0, k + n, k)
+            ex.maybe_raise('IndexError', z3.Not(z3.And(k >= 0, k < n)), line)
+            return ex.wrap(arr[k], E)
+        if name == '__setitem__':
+            k = ex._num(args[0])
+            k = z3.If(k < 0, k + n, k)
+            ex.maybe_raise('IndexError', z3.Not(z3.And(k >= 0, k < n)), line)
+            ex.write(recv, ty.mk(n, z3.Store(arr, k, ex.to_z3(args[1], E))), line)
+            return None
+        if name == 'pop':
+            ex.maybe_raise('IndexError', n <= 0, line)
+            if args and not ex.is_sym(args[0]) and args[0] == 0:
+                j = z3.Int(ex.path.fresh_name('pop_j'))
+                ex.write(recv, ty.mk(n - 1, z3.Lambda([j], arr[j + 1])), line)
+                return ex.wrap(arr[0], E)
+            if not args:
+                ex.write(recv, ty.mk(n - 1, arr), line)
+                return ex.wrap(arr[n - 1], E)
+            raise Unsupported('list.pop(i)')
+        if name == 'clear':
+            ex.write(recv, ty.mk(z3.IntVal(0), arr), line)
+            return None
+        if name == 'copy':
+            return ex.newbox(t, ty)
+        raise Unsupported('list method %s (line %d)' % (name, line))
+
     def map_method(self, ex, recv, name, args, kwargs, line):
         ty = recv.ty
         t = ex.read(recv)
@@ -765,6 +820,8 @@ def b_len(ex, args, kwargs, e):
         t = ex.read(v)
         if isinstance(v.ty, SeqOf):
             return V(z3.Length(t), INT)
+        if isinstance(v.ty, ListOf):
+            return V(v.ty.len(t), INT)
         if isinstance(v.ty, SetOf):
             n = card(ex, t, v.ty)
             return V(n, INT)
